@@ -485,6 +485,12 @@ var c10Corpus = []string{
 	// group-open errors and odd spellings
 	`(`, `)`, `(a`, `a)`, `(?`, `(?<`, `(?<n`, `(?<n>`, `(?<n>a`, `(?'n>a)`, `(?<n'a)`, `(?<0>a)`, `(?<1a>b)`, `(?<n!>a)`, `(?<!`, `(?<=`, `(?'=a)`, `(?'!a)`, `(?<$>a)`, `(?a)`, `(?ia)`, `(?i`, `(?-`, `(?i-`, `(?P<n>a)`, `(?P=n)`, `(?)`, `(?)a`, `((?))`,
 	`(?<99999999999>a)`, `\99999999999`, `(?<n>a)(?<n>b)`, `(?<n>a)|(?<n>b)\k<n>`, `(?<3>a)(b)(?<5>c)(d)`, `(?<a>1)(2)(?<b>3)(4)`,
+	// a subtraction written where a range was expected whose class starts with a literal ']' and holds parentheses / brackets:
+	// the capture pre-scan must skip it as a unit (a5090c5: it closed the outer class at the first ']' and lost step with the main pass)
+	`(?<1>a)(b)`, `(a)(?<1>b)`, `(a)(?<n>b)(?<5>c)`, `(?<2>a)(b)(?<n>c)`, `(?<2>x)(?<2>y)(b)`, `(?<2>x)(?'2'y)(?<2>z)(w)`,
+	// digits that start with '0' are not filed by the pre-scan (5afce6b)
+	`(?<x>q)(?<02>b)(a)`, `(?<x>q)(?<02>b)(a)(c)`, `(?<01>b)(a)`, `(?<01>b)(?<1>a)(c)`, `(?<x>q)(?'02'b)(a)`, `(?<x>q)(?<02-x>b)(a)`, `(?<x>q)(?<00>b)(a)`, `(a)(?<01>b)\1`,
+	`(?n:[a-[](]])(b)`, `(?n:[a-[](]])(?<x>b)(c)`, `[a-[](]](b)\1`, `([a-[])]])`, `(?x:[a-[]#]])(b)`, `[a-[]b]]`, `[a-[^]]]`, `[a-[][]](b)`, `[a-[](]`, `[a-[](]]x]`, `(?i:[a-[](]])(b)`, `[\p-x-[](]](b)`,
 }
 
 // RE2- and ECMAScript-specific spellings (run under those option sets as well as the others)
@@ -492,9 +498,14 @@ var c10CorpusDialect = []string{
 	`(?P<n>a)(?P=n)`, `(?P<n>a)\k<n>`, `(?P=m)`, `(?P=`, `(?P=n`, `(?P<n`, `(?P<>a)`, `(?P<n!>a)`, `(?P>a)`, `(?P<1>a)`, `(?P=!)`, `[[:alpha:][:^space:]]+`, `[[:word:][:digit:]]`, `[[:foo:]]`, `$`, `\Z`, `\w\W\s\S\d\D`, `[\w\s\D]`,
 	`[]`, `[^]`, `[]a]`, `[a-\d]`, `[\d-a]`, `[\pL]`, `[a-\p]`, `[\p-z]`, `[\p-a]`, `[a-\P]`, `\p{L}`, `\pL`, `\u{41}`, `\u{}`, `\x{41}`, `\k<n>`, `\k`, `\8`, `\18`, `(a)\18`, `.`, `(?s).`, `\b\B`, `(?<n>a)`, `(?<=a)b`, `(?<!a)b`, `\1(a)`,
 	`\q`, `\c`, `\x4`, `\u00`, `a{2}`, `(?i)[\W]`, `(?i)\w`, `(?i)[k\d]`,
+	// (?P=name) as the condition parenthesis of (?( ... ): not a back-reference there (4f8aca1: it left the conditional without a condition child)
+	// digits as a group name under MaintainCaptureOrder / RE2: the main pass reads them as the name the pre-scan filed (2b27550)
+	`(?<x>q)(?<02>b)(a)`, `(?P<x>q)(?<02>b)(a)(c)`, `(?P<02>q)(?<02>b)(?<2>c)(a)`,
+	`(?<2>x)(?P<2>y)(?<2>z)(w)`, `(?<1>a)(b)`, `(a)(?<1>b)`, `(a)(?<n>b)(?<5>c)`, `(?<2>a)(b)(?<n>c)`, `(?<2>x)(?<2>y)(b)`, `(?<3>a)(?<-3>b)`, `(?<a>x)(?<2-a>y)(z)`, `(?<0>a)`, `(?<2>x)(?P<2>y)\k<2>(w)\2`,
+	`(?P<a>x)(?(?P=a)b)`, `(?P<a>x)(?(?P=a)b|c)`, `(?P<a>x)(?(?P=a)b|c|d)`, `(?P<a>x)(?(?P=a))`, `(?(?P=a)b)`, `(?P<a>x)(?(a)(?P=a)b)`, `(?P<a>x)(?((?P=a))b)`,
 }
 
-var c10InsertFrags = []string{"(", ")", "[", "]", "{", "}", "|", "*", "+", "?", "\\", "^", "$", ".", "(?", "(?:", "(?<n>", "(?=", "(?<=", "(?!", "(?>", "(?#", "(?i)", "(?x:", "\\1", "\\k<n>", "\\d", "\\p{L}", "{2}", "{2,}", "{1,3}?", "[^", "-[", "#", " ", "a", "-"}
+var c10InsertFrags = []string{"(", ")", "[", "]", "{", "}", "|", "*", "+", "?", "\\", "^", "$", ".", "(?", "(?:", "(?<n>", "(?=", "(?<=", "(?!", "(?>", "(?#", "(?i)", "(?x:", "\\1", "\\k<n>", "\\d", "\\p{L}", "{2}", "{2,}", "{1,3}?", "[^", "-[", "#", " ", "a", "-", "a-[]", "(?(?P="}
 
 var c10TimeIn, c10TimeReal time.Duration
 
